@@ -135,6 +135,10 @@ func genEncode(t *rapid.T) encCase {
 		hl = 0
 	}
 	hrp := bgen.HRP(t, hl)
+	if h.Pick(t, "knownhrp", 7, 1) == 1 { // prefixes in actual use (a table of precomputed prefix states would name these)
+		hrp = h.OneOf(t, "khrp", bgen.KnownHRPs...)
+		hl = len(hrp)
+	}
 	// data length: either free or aimed at the 90-character boundary
 	room := 90 - hl - 7
 	var dl int
